@@ -1,6 +1,6 @@
 (* Loop specifications (frame style) for the even=true branch of the translated Forward53_1DWithParity. *)
 From V Require Import Common.Base Tie.GoSem Gen.KernelsSlices_gen.
-From Scr Require Import DwtTieLib.
+From V Require Import Tie.DwtTieLib.
 
 Section FwdEven.
 Variable x : list Z.
